@@ -358,7 +358,7 @@ pub fn ref_command(id: SeqId, p: &InParams) -> Pkt {
             .bcd(0x49, p.currency as u64)
             .bcd(0x87, p.receipt as u64),
         PrintSystemConfiguration => Pkt::new(0x06, 0x1a),
-        SelectLanguage => Pkt::new(0x08, 0x30).pos(&[p.byte]),
+        SelectLanguage => Pkt::new(0x08, 0x30).pos(&[effective_language(p.byte)]),
         StatusEnquiry => Pkt::new(0x05, 0x01).pos(&pw).byte(0x03, p.byte),
         GetSystemInfo => Pkt::new(0x0f, 0xa1).pos(&[0x00, 0x01]),
         FactoryReset => Pkt::new(0x0f, 0xa1).pos(&pw).pos(&[0x02, 0x55]),
@@ -572,9 +572,17 @@ async fn drive_stream<O: std::fmt::Debug>(
             }
         }
     }
+    // Polling a finished stream again: it may return None for ever (then it must do no I/O and
+    // yield nothing), or it may not be fused at all - the Stream contract allows a panic then.
     for _ in 0..3 {
-        if stream.next().await.is_some() {
-            rec.lock().unwrap().after_end += 1;
+        use futures::FutureExt;
+        match std::panic::AssertUnwindSafe(stream.next()).catch_unwind().await {
+            Ok(Some(_)) => rec.lock().unwrap().after_end += 1,
+            Ok(None) => {}
+            Err(_) => {
+                let _ = crate::framework::take_panic();
+                break;
+            }
         }
     }
 }
@@ -588,10 +596,24 @@ fn short(s: &str) -> String {
 }
 
 fn select_language(b: u8) -> packets::SelectLanguage {
-    // The field is private; the only way to build one is to decode it.
-    packets::SelectLanguage::zvt_deserialize(&[0x08, 0x30, 0x01, b])
-        .expect("SelectLanguage decodes")
+    // The field is private; the only way to build one is to decode it. Should the library refuse
+    // this language code, the nearest code it accepts is used (the reference command follows suit
+    // through `effective_language`).
+    packets::SelectLanguage::zvt_deserialize(&[0x08, 0x30, 0x01, effective_language(b)])
+        .expect("no language code at all decodes as SelectLanguage")
         .0
+}
+
+/// The language code actually sent for input byte `b`: `b` itself if the library can build the
+/// packet for it, else the next code (cyclically) it accepts.
+pub fn effective_language(b: u8) -> u8 {
+    for d in 0..=255u8 {
+        let c = b.wrapping_add(d);
+        if packets::SelectLanguage::zvt_deserialize(&[0x08, 0x30, 0x01, c]).is_ok() {
+            return c;
+        }
+    }
+    b
 }
 
 /// Runs the real `Sequence::into_stream` of `id` with the input built from `p`.
@@ -716,6 +738,7 @@ pub async fn drive(
                 payment_type: Some(p.byte),
                 currency: Some(p.currency as usize),
                 tlv: bmp(),
+                ..packets::PartialReversal::default()
             }
         ),
         PreAuthReversal => go!(
